@@ -1,7 +1,7 @@
 (* Props/C17.v — Any log tail is tolerated on open.
    Only statements, `exact`, and Print Assumptions (plus one Example showing the
    hypotheses are met by a concrete log). *)
-From NDB Require Import Base.Bytes Codec.Crc32 Codec.PropValue Codec.WalRecord Codec.WalLog Codec.WalLog_proofs.
+From NDB Require Import Base.Bytes Codec.Crc32 Codec.PropValue Codec.WalRecord Codec.WalLog Codec.WalLog_proofs Codec.WalLog_corollaries.
 Open Scope N_scope.
 
 (* a complete frame with a body of 1..MAX bytes is read back, whatever follows it *)
@@ -53,6 +53,31 @@ Definition C17_commit_after_tail_statement : Prop :=
 Theorem C17_commit_after_tail : C17_commit_after_tail_statement.
 Proof. exact commit_after_tail. Qed.
 Print Assumptions C17_commit_after_tail.
+
+(* the same with the hypothesis on the appended records discharged by the record-level round
+   trip (C25): they only have to be well-formed and within the size limit append enforces *)
+Definition C17_commit_after_tail_wf_statement : Prop :=
+  forall l rs t txs (newtx : tx) t2,
+    valid_log l rs -> next_frame t = NStop -> replay rs None [] [] = Some txs ->
+    forallb (fun r => negb (is_marker r)) (snd newtx) = true ->
+    Forall (fun r => wf_rec r = true /\ len (encode_body r) <= wal_max_record_len) (commit_records newtx) ->
+    next_frame t2 = NStop ->
+    exists l1 l2,
+      open_log (l ++ t) = inl (l1, txs) /\
+      append_all l1 (commit_records newtx) = Some l2 /\
+      valid_log l2 (rs ++ commit_records newtx) /\
+      open_log (l2 ++ t2) = inl (l2, txs ++ [newtx]).
+Theorem C17_commit_after_tail_wf : C17_commit_after_tail_wf_statement.
+Proof. exact commit_after_tail_wf. Qed.
+Print Assumptions C17_commit_after_tail_wf.
+
+(* every log written record by record (well-formed records within the size limit) is a valid log *)
+Definition C17_written_log_valid_statement : Prop :=
+  forall rs, Forall (fun r => wf_rec r = true /\ len (encode_body r) <= wal_max_record_len) rs ->
+    valid_log (log_of (map encode_body rs)) rs.
+Theorem C17_written_log_valid : C17_written_log_valid_statement.
+Proof. exact written_log_valid. Qed.
+Print Assumptions C17_written_log_valid.
 
 (* the hypotheses are met: a log of one committed transaction, a zero-filled tail, a new
    commit, a torn tail behind it *)
